@@ -65,7 +65,8 @@ int main(int argc, char** argv)
   std::string fail_message;
   auto const t0 = std::chrono::steady_clock::now();
   bool budget_hit = false;
-  long skipped = 0;
+  long skipped = 0, shrink_skipped = 0;
+  auto t_first_fail = t0;
 
   // element generator must not collapse at small sizes: fixed nominal size
   auto elem = rc::gen::resize(100, rc::gen::inRange<uint32_t>(0u, 1u << 30));
@@ -80,6 +81,12 @@ int main(int argc, char** argv)
                           if (el > a.time_budget) { budget_hit = true; ++skipped; return; }
                         }
                         std::vector<uint32_t> v = *gen;
+                        if (st.failures > 0)
+                        {
+                          // shrinking: bounded by wall time so a failing run still ends promptly
+                          double sel = std::chrono::duration<double>(std::chrono::steady_clock::now() - t_first_fail).count();
+                          if (sel > a.shrink_budget) { ++shrink_skipped; return; }
+                        }
                         Report r = info.fork_per_case ? execute_forked(v, info.watchdog_ms) : execute_inprocess(v);
                         st.account(r);
                         if (r.failed)
@@ -90,6 +97,7 @@ int main(int argc, char** argv)
                             ++st.counters["known." + r.known_class];
                             return;
                           }
+                          if (st.failures == 0) t_first_fail = std::chrono::steady_clock::now();
                           ++st.failures;
                           fail_message = r.message;
                           write_replay(a.replay_out, info.name, a.params, v, r);
@@ -100,6 +108,7 @@ int main(int argc, char** argv)
   double wall = std::chrono::duration<double>(std::chrono::steady_clock::now() - t0).count();
   st.counters["skipped_after_time_budget"] = skipped;
   st.counters["time_budget_hit"] = budget_hit ? 1 : 0;
+  st.counters["shrink_candidates_skipped_after_budget"] = shrink_skipped;
   std::string js = st.to_json(info.name, a.params, a.seed, wall, ok ? std::string{} : fail_message,
                               ok ? std::string{} : a.replay_out);
   if (!a.out.empty())
